@@ -1,13 +1,97 @@
 package main
 
+import (
+	"fmt"
+
+	"verifharness/internal/vl"
+)
+
 // Hand-written programs run on every seed.
 
 func nameT(name string, tfile int, tname string, inc int) *TypeX {
 	return &TypeX{K: "n", Name: name, TFile: tfile, TName: tname, Inc: inc}
 }
 
-func fixedCases() []*Prog {
+// chainDefs: typedefs <pfx>0 = <pfx>1, …, <pfx>(n-1) = end, in top-down order (aliases first).
+func chainDefs(file int, pfx string, n int, end *TypeX) []*Typedef {
+	var tds []*Typedef
+	for i := 0; i < n; i++ {
+		t := end
+		if i < n-1 {
+			nm := fmt.Sprintf("%s%d", pfx, i+1)
+			t = nameT(nm, file, nm, -1)
+		}
+		tds = append(tds, &Typedef{Alias: fmt.Sprintf("%s%d", pfx, i), Type: t})
+	}
+	return tds
+}
+
+// chainUsers: the top of a chain in a field, in containers, as a constant's type, in a signature.
+func chainUsers(f *File, file int, top string) {
+	t := func() *TypeX { return nameT(top, file, top, -1) }
+	f.Structs = append(f.Structs, &StructLike{Name: "User", Fields: []*Field{
+		{ID: 1, Name: "a", Type: t()},
+		{ID: 2, Name: "b", Type: &TypeX{K: "l", Val: t(), Inc: -1, TFile: -1}},
+		{ID: 3, Name: "c", Type: &TypeX{K: "m", Key: baseType("string"), Val: &TypeX{K: "s", Val: t(), Inc: -1, TFile: -1}, Inc: -1, TFile: -1}}}})
+	f.Constants = append(f.Constants, &Constant{Name: "kTop", Type: t(), Value: &CV{K: "i", Int: 1}})
+	f.Services = append(f.Services, &Service{Name: "Svc", ExtInc: -1, Functions: []*Function{
+		{Name: "m", Ret: t(), Args: []*Field{{ID: 1, Name: "a", Type: t()}, {ID: 2, Name: "b", Type: &TypeX{K: "l", Val: t(), Inc: -1, TFile: -1}}}}}})
+}
+
+// longChains: aimed at ResolveTypedefs' fixpoint: a chain written aliases-first needs one pass per
+// link, so no bound on the number of passes is right.  Each program also runs reversed and permuted.
+func longChains() []*Prog {
 	var out []*Prog
+	// 12 links top-down in one file, ending in a base type
+	a := &File{Path: "main.thrift", Typedefs: chainDefs(0, "T", 12, baseType("i32"))}
+	chainUsers(a, 0, "T0")
+	out = append(out, &Prog{Root: 0, ISeed: 11, Expect: "ok", Shape: "valid-chain-12-top-down", Fixed: true, Files: []*File{a}})
+	// 17 links top-down ending in a 9-link chain (top-down too) of an include, which ends in an enum
+	inc := &File{Path: "d1/inc.thrift", Enums: []*Enum{{Name: "E", Values: []EnumVal{{"RED", 0}, {"BLUE", 3}}}},
+		Typedefs: chainDefs(0, "U", 9, nameT("E", 0, "E", -1))}
+	chainUsers(inc, 0, "U0")
+	m := &File{Path: "main.thrift", Includes: []Inc{{Path: "d1/inc.thrift", Target: 0}},
+		Typedefs: chainDefs(1, "T", 17, nameT("inc.U0", 0, "U0", 0))}
+	chainUsers(m, 1, "T0")
+	m.Constants = append(m.Constants,
+		&Constant{Name: "kRed", Type: nameT("T0", 1, "T0", -1), Value: &CV{K: "x", Str: "T0.RED", Want: &Extra{true, 0, "RED", "T0"}}},
+		&Constant{Name: "kBlue", Type: nameT("T9", 1, "T9", -1), Value: &CV{K: "x", Str: "inc.U3.BLUE", Want: &Extra{true, 0, "BLUE", "U3"}}})
+	out = append(out, &Prog{Root: 1, ISeed: 12, Expect: "ok", Shape: "valid-chain-17+9-cross-file", Fixed: true, Files: []*File{inc, m}})
+	// 33 links in a fixed scrambled order, ending in a struct
+	c := &File{Path: "main.thrift", Structs: []*StructLike{{Name: "End"}}, Typedefs: chainDefs(0, "L", 33, nameT("End", 0, "End", -1))}
+	shuffle(vl.NewRng(33), c.Typedefs)
+	chainUsers(c, 0, "L0")
+	out = append(out, &Prog{Root: 0, ISeed: 13, Expect: "ok", Shape: "valid-chain-33-scrambled", Fixed: true, Files: []*File{c}})
+	return out
+}
+
+// shadowed: two includes with the same IDL prefix; the first defines `Echo` and `Stamp` as a service
+// and a constant, the second as a struct and a typedef.  As a type, `common.Echo` / `common.Stamp`
+// is the struct / typedef of the second include; as a base service `common.Echo` is the service of
+// the first; as a value `common.Stamp` is the constant of the first.
+func shadowed() *Prog {
+	first := &File{Path: "d1/common.thrift",
+		Services:  []*Service{{Name: "Echo", ExtInc: -1}},
+		Constants: []*Constant{{Name: "Stamp", Type: baseType("i32"), Value: &CV{K: "i", Int: 7}}}}
+	second := &File{Path: "d2/common.thrift",
+		Structs:  []*StructLike{{Name: "Echo"}},
+		Typedefs: []*Typedef{{Alias: "Stamp", Type: baseType("i64")}}}
+	m := &File{Path: "main.thrift",
+		Includes: []Inc{{Path: "d1/common.thrift", Target: 0}, {Path: "d2/common.thrift", Target: 1}},
+		Structs: []*StructLike{{Name: "S", Fields: []*Field{
+			{ID: 1, Name: "a", Type: nameT("common.Echo", 1, "Echo", 1)},
+			{ID: 2, Name: "b", Type: &TypeX{K: "l", Val: nameT("common.Stamp", 1, "Stamp", 1), Inc: -1, TFile: -1},
+				Default: nil},
+			{ID: 3, Name: "c", Type: baseType("i32"), Default: &CV{K: "x", Str: "common.Stamp", Want: &Extra{false, 0, "Stamp", "common"}}}}}},
+		Typedefs: []*Typedef{{Alias: "T", Type: nameT("common.Stamp", 1, "Stamp", 1)}},
+		Services: []*Service{{Name: "Sub", Extends: "common.Echo", ExtInc: 0,
+			Functions: []*Function{{Name: "m", Ret: nameT("common.Echo", 1, "Echo", 1), Args: []*Field{{ID: 1, Name: "a", Type: nameT("T", 2, "T", -1)}}}}}}}
+	return &Prog{Root: 2, ISeed: 21, Expect: "ok", Shape: "valid-type-name-skips-service-and-constant", Fixed: true,
+		Files: []*File{first, second, m}}
+}
+
+func fixedCases() []*Prog {
+	out := append(longChains(), shadowed())
 	// Regression (fixed in /repo by "getEnum terminates on cyclic typedefs and does not look up
 	// include-qualified names locally"): definition names may contain dots.  `T` is the struct `b` of
 	// a.thrift, so `T.X` names nothing; the old getEnum fell back to the local enum literally named
